@@ -1,0 +1,23 @@
+//go:build verif
+
+package column
+
+import "sync/atomic"
+
+// verifHook holds the yield hook used by the verification harness (build tag
+// "verif" only). It is stored atomically so that background goroutines (vacuum)
+// reaching a yield point never race with the harness installing a hook.
+var verifHook atomic.Value // of *func(point string, block uint32)
+
+// SetVerifHook installs (or, with nil, removes) the function that is called at
+// the protocol yield points of the commit, snapshot and key-insert paths.
+func SetVerifHook(fn func(point string, block uint32)) {
+	verifHook.Store(&fn)
+}
+
+// verifYield calls the installed hook, if any.
+func verifYield(point string, block uint32) {
+	if p, _ := verifHook.Load().(*func(point string, block uint32)); p != nil && *p != nil {
+		(*p)(point, block)
+	}
+}
